@@ -114,6 +114,7 @@ pub static C02: Profile = Profile {
 
 pub fn c03_build(raw: &Raw, _tier: Tier, _sched: bool) -> Scenario {
     let mut o = PipeOpts::base("c03");
+    o.reducers = (0, 3);
     o.prelude_subs = (1, 4);
     o.mws = (0, 2);
     o.verdicts = true;
